@@ -1,5 +1,6 @@
 import PygVerif.Model.Tal
 import PygVerif.Model.Metal
+import PygVerif.Model.Include
 /-!
 Token-stream codec for templates, values and programs (used by Driver.lean).
 Tokens are separated by single spaces; strings are dotted hex (`-` = empty).
@@ -123,6 +124,12 @@ def parseMNodes (s : String) : List MNode := (pMNodes.run (s.splitOn " ")).1
 def parseMacros (s : String) : List (Str × MNode) := (pMacros.run (s.splitOn " ")).1
 
 def parseNodes (s : String) : List Node := (pNodes.run (s.splitOn " ")).1
+
+/-- a table of named templates: count, then (name, nodes) -/
+def pTpls : P (List (Str × List Node)) := do
+  let n ← pNat
+  pRep n (do let k ← pStr; let t ← pNodes; pure (k, t))
+def parseTpls (s : String) : List (Str × List Node) := (pTpls.run (s.splitOn " ")).1
 def parseVal (s : String) : Val := (pVal.run (s.splitOn " ")).1
 
 partial def encVal : Val → String
